@@ -9,6 +9,7 @@ def target(n, size, how):
     for i in range(n):
         lg.warning('%d %s', i, 'x' * size)
     lg.debug('-1 below the parent level')
+    logging.getLogger('app.audit').info('-2 named logger more verbose than the parent root')
     if how == 'raise':
         raise ValueError(n)
     if how == 'exit':
@@ -20,9 +21,14 @@ class H(logging.Handler):
     def __init__(self):
         super().__init__()
         self.got = []
+        self.audit = 0
 
     def emit(self, record):
-        self.got.append(int(record.getMessage().split()[0]))
+        i = int(record.getMessage().split()[0])
+        if i == -2:
+            self.audit += 1
+        else:
+            self.got.append(i)
 
 
 if __name__ == '__main__':
@@ -31,7 +37,8 @@ if __name__ == '__main__':
         h = H()
         root = logging.getLogger()
         root.addHandler(h)
-        root.setLevel(logging.INFO)
+        root.setLevel(logging.INFO if how != 'raise' else logging.WARNING)
+        logging.getLogger('app.audit').setLevel(logging.DEBUG)      # only the parent's level settings decide: this record must be handled
         p = Process(target=target, args=(n, size, how))
         p.start()
         try:
@@ -44,4 +51,5 @@ if __name__ == '__main__':
         root.removeHandler(h)
         assert p.exitcode is not None, 'child never exited'
         assert h.got == list(range(n)), (how, len(h.got), n, h.got[-5:])
+        assert h.audit == 1, f'record of a logger the parent configured at DEBUG was handled {h.audit} times ({how}): filtered in the child?'
     print('OK')
